@@ -25,6 +25,7 @@ TECHNIQUE = "static analysis of rustc MIR facts: path counting between sites, do
 
 G = gs.G
 B = "libp2p_gossipsub::behaviour::Behaviour::"
+CONFIGS = [{"name": "gossipsub-features", "packages": ["libp2p-gossipsub"], "features": "metrics,partial-messages"}]
 ADDED = r"behaviour::peer_added_to_mesh$"
 REMOVED = r"behaviour::peer_removed_from_mesh$"
 
